@@ -17,6 +17,8 @@ func init() {
 }
 
 func gcDrive(c *Ctx, scs []gcScenario) error {
+	// internal-trace conformance of the implementation-shaped model (GoChannelImplTrace.tla)
+	gcConformance(c, c.Pick(12, 240))
 	T := c.Trace("GoChannelTrace")
 	runs := make([]*tr.Run, len(scs))
 	for i, sc := range scs {
